@@ -4,6 +4,7 @@
 //@ include prelude/ipld.rs
 //@ include prelude/rt.rs
 //@ include prelude/policy.rs
+//@ include prelude/iter_any.rs
 verus! {
 //@ item runtime/src/runtime/fvm.rs FvmRuntime tsub0="< B = ActorBlockstore >=><B>"
 //@ include prelude/fvm_runtime_assumed.rs
@@ -19,7 +20,7 @@ verus! {
         r.is_err() ==> final(self).caller_validated.v == old(self).caller_validated.v,
         final(self).in_transaction == old(self).in_transaction,
 //@ end
-//@ fn runtime/src/runtime/fvm.rs FvmRuntime::validate_immediate_caller_is selfmut inherent impl="impl<B> FvmRuntime<B>" sigsub0="< 'a , I >=>" sigsub1="addresses : I=>addresses : &Vec<Address>" sigsub2="where I : IntoIterator < Item = & 'a Address >=>" sub0="self . message () . caller ()=>fvm_msg_caller()" sub1="addresses . into_iter () . any (| a | * a == caller_addr)=>vx_any_addr(addresses, caller_addr)"
+//@ fn runtime/src/runtime/fvm.rs FvmRuntime::validate_immediate_caller_is selfmut inherent impl="impl<B> FvmRuntime<B>" sigsub0="< 'a , I >=>" sigsub1="addresses : I=>addresses : &Vec<Address>" sigsub2="where I : IntoIterator < Item = & 'a Address >=>" sub0="self . message () . caller ()=>fvm_msg_caller()" r23
     ensures
         // Ok exactly when nobody validated before AND the immediate caller is one of the given addresses; only then is the flag set
         r.is_ok() <==> (!old(self).caller_validated.v && addresses@.contains(fvm_caller_spec())),
@@ -28,7 +29,7 @@ verus! {
         r.is_err() && !old(self).caller_validated.v ==> r->Err_0.code == 18,
         final(self).in_transaction == old(self).in_transaction,
 //@ end
-//@ fn runtime/src/runtime/fvm.rs FvmRuntime::validate_immediate_caller_type selfmut inherent impl="impl<B> FvmRuntime<B>" r13 sigsub0="< 'a , I >=>" sigsub1="types : I=>types : &Vec<Type>" sigsub2="where I : IntoIterator < Item = & 'a Type >=>" sub0="self . message () . caller ()=>fvm_msg_caller()" sub1="types . into_iter () . any (| t | * t == typ)=>vx_any_type(types, typ)"
+//@ fn runtime/src/runtime/fvm.rs FvmRuntime::validate_immediate_caller_type selfmut inherent impl="impl<B> FvmRuntime<B>" r13 sigsub0="< 'a , I >=>" sigsub1="types : I=>types : &Vec<Type>" sigsub2="where I : IntoIterator < Item = & 'a Type >=>" sub0="self . message () . caller ()=>fvm_msg_caller()" r23
     requires fvm_code_of(fvm_caller_spec().id).is_some(),
     ensures
         r.is_ok() <==> (!old(self).caller_validated.v && fvm_type_of(fvm_code_of(fvm_caller_spec().id)->Some_0).is_some()
@@ -36,6 +37,20 @@ verus! {
         r.is_ok() ==> final(self).caller_validated.v,
         r.is_err() ==> final(self).caller_validated.v == old(self).caller_validated.v,
         final(self).in_transaction == old(self).in_transaction,
+//@ end
+//@ fn runtime/src/runtime/fvm.rs FvmRuntime::delete_actor inherent impl="impl<B> FvmRuntime<B>" sub0="fvm :: sself :: self_destruct (false)=>fvm_sself_self_destruct(false)"
+    ensures
+        // state-changing syscalls are refused while a state transaction is open
+        self.in_transaction.v ==> r.is_err() && r->Err_0.code == 24,
+//@ end
+//@ fn runtime/src/runtime/fvm.rs FvmRuntime::create_actor inherent impl="impl<B> FvmRuntime<B>" sub0="fvm :: actor :: create_actor (actor_id , & code_id , predictable_address)=>fvm_actor_create_actor(actor_id, &code_id, predictable_address)"
+    ensures
+        self.in_transaction.v ==> r.is_err() && r->Err_0.code == 24,
+//@ end
+//@ fn runtime/src/runtime/fvm.rs FvmRuntime::send inherent impl="impl<B> FvmRuntime<B>" sub0="SendError (ErrorNumber :: IllegalOperation)=>vx_send_error_illegal_operation()" sub1="fvm :: send :: send (to , method , params , value , gas_limit , flags) . map_err (SendError)=>fvm_send_send(to, method, params, value, gas_limit, flags)"
+    ensures
+        // "During such [a state transaction], sending messages is prohibited": refused before the syscall
+        self.in_transaction.v ==> r.is_err() && r->Err_0.0 == illegal_operation_spec(),
 //@ end
 } // verus!
 fn main() {}
